@@ -45,6 +45,7 @@ import (
 	netpkg "github.com/fatedier/frp/pkg/util/net"
 	"github.com/fatedier/frp/pkg/util/tcpmux"
 	"github.com/fatedier/frp/pkg/util/util"
+	"github.com/fatedier/frp/pkg/util/verifhook"
 	"github.com/fatedier/frp/pkg/util/version"
 	"github.com/fatedier/frp/pkg/util/vhost"
 	"github.com/fatedier/frp/pkg/util/xlog"
@@ -599,9 +600,11 @@ func (svr *Service) RegisterControl(ctlConn net.Conn, loginMsg *msg.Login, inter
 		return fmt.Errorf("unexpected error when creating new controller")
 	}
 	if oldCtl := svr.ctlManager.Add(loginMsg.RunID, ctl); oldCtl != nil {
+		verifhook.At("server.registerControl.afterReplace", loginMsg.RunID)
 		oldCtl.WaitClosed()
 	}
 
+	verifhook.At("server.registerControl.beforeStart", loginMsg.RunID)
 	ctl.Start()
 
 	// for statistics
@@ -610,6 +613,7 @@ func (svr *Service) RegisterControl(ctlConn net.Conn, loginMsg *msg.Login, inter
 	go func() {
 		// block until control closed
 		ctl.WaitClosed()
+		verifhook.At("server.control.beforeDel", loginMsg.RunID)
 		svr.ctlManager.Del(loginMsg.RunID, ctl)
 	}()
 	return nil
@@ -623,6 +627,7 @@ func (svr *Service) RegisterWorkConn(workConn net.Conn, newMsg *msg.NewWorkConn)
 		xl.Warnf("No client control found for run id [%s]", newMsg.RunID)
 		return fmt.Errorf("no client control found for run id [%s]", newMsg.RunID)
 	}
+	verifhook.At("server.registerWorkConn.afterLookup", newMsg.RunID)
 	// server plugin hook
 	content := &plugin.NewWorkConnContent{
 		User: plugin.UserInfo{
